@@ -35,6 +35,8 @@
     renumber <b> | fill <v>                  cell (i, j) := b + 100·i + j | every cell := v
                                              (map_mut_with_index / map_mut ignoring the old value:
                                              re-synchronises a case after a panicking in-place map)
+    eq_after <op …>                          the operation on a clone, then `matrix == clone` and
+                                             `clone == matrix` → eq=true|false (read-only)
     scalar                                   → val=<v> | panic         (read-only, &self)
     try_into_scalar                          → ok(<v>) | err           (on a clone)
     row_iter <r> | column_iter <c> | diagonal_iter via=iter|reference_iter
@@ -343,6 +345,15 @@ def step (s : State) (toks : List String) : State × String :=
         | .ok none => "err"
         | .panic k => s!"panic ## kind={k}"
       (s, if model = spec then model else s!"{spec} ## MODEL-SPEC-DISAGREE {model}")
+  | "eq_after" :: rest =>
+    match s, parseXOp rest with
+    | none, some _ => (s, "no-matrix")
+    | some st, some x =>
+      let res := Matrix.xexec st.m x
+      let spec := decide (st.rs = Rows.xnext st.rs x)
+      let model := Matrix.eqP st.m res.state && Matrix.eqP res.state st.m
+      (s, if spec = model then s!"eq={spec}" else s!"eq={spec} ## MODEL-SPEC-DISAGREE eq={model}")
+    | _, none => (s, "bad-op")
   | "try" :: rest =>
     match s, parseXOp rest with
     | none, some _ => (s, "no-matrix")
